@@ -1,5 +1,9 @@
 """C17 configuration for ./check"""
+import os, sys
+sys.path.insert(0, os.path.join(os.path.dirname(os.path.abspath(__file__)), '..'))
+from go2v_hook import go2v_hook
 CONF = {
+    'pre': [go2v_hook],
     'interesting': ['unequal-length-shared-prefix', 'equal-bytes-different-type', 'len-17-reject',
                     'reversed-pair', 'layer-flow'],
     'rule': 'Op sequences over an append-only register file of endpoints and flows: NewEndpoint/NewFlow for 14 endpoint types (incl. negative, min/max int64) x raw lengths 0..18, pairs with shared prefixes / zero extensions / one-bit changes / equal bytes with different type, dense triples with all pairwise comparisons, random chains of FlowFromEndpoints/Endpoints/Src/Dst/Reverse, rejection above 16 bytes; and for each of the 12 layer flow constructors well-formed headers (both directions), truncations at and around the header length, header-field mutations and random bytes, decoded lazily through gopacket.NewPacket; plus whole Ethernet/IPv4|IPv6/TCP|UDP|SCTP packets (IP options, fragments, length-field variations, truncations, byte mutations) decoded eagerly in both directions. After every op the pushed values (type, Raw, FastHash) or the comparison results (==, LessThan both ways, map insert+lookup, hash equality) are compared with the model; the implementation-side oracle checks the value laws and the layer/address/reverse/hash clauses directly.',
